@@ -33,3 +33,21 @@ Proof.
   rewrite <- (R_accept_interval thr old d kT Hd HkT).
   destruct (accept NumR exp thr (Some (old - d)) old kT); split; intros H; try reflexivity; discriminate H.
 Qed.
+
+(* ------------------------------------------------------------------ *)
+(* LJ2::energy as translated from the source, over the reals (powi as real powers)                    *)
+From PV Require Import model.Geom proofs.LJFacts.
+
+Theorem source_lj_is_12_6 : forall (a b : lj NumR) (r : R),
+  lcut NumR a = None -> 0 < r -> r * r = r2_of a b ->
+  gen_lj_energy NumR rpowi a b = 4 * leps NumR a * ((lsigma NumR a / r) ^ 12 - (lsigma NumR a / r) ^ 6).
+Proof. intros a b r H1 H2 H3. rewrite lj_energy_is_source. exact (lj_is_12_6 a b r H1 H2 H3). Qed.
+
+Theorem source_lj_zero_beyond : forall (a b : lj NumR) (x : R),
+  lcut NumR a = Some x -> x * x <= r2_of a b -> gen_lj_energy NumR rpowi a b = 0.
+Proof. intros a b x H1 H2. rewrite lj_energy_is_source. exact (lj_zero_beyond a b x H1 H2). Qed.
+
+Theorem source_lj_symmetric_like : forall a b : lj NumR,
+  lsigma NumR a = lsigma NumR b -> leps NumR a = leps NumR b -> lcut NumR a = lcut NumR b ->
+  gen_lj_energy NumR rpowi a b = gen_lj_energy NumR rpowi b a.
+Proof. intros a b H1 H2 H3. rewrite !lj_energy_is_source. exact (lj_symmetric_like a b H1 H2 H3). Qed.
